@@ -54,7 +54,7 @@ _add('flts/f32x', '2.5f32', 'f32', '2.5f32')
 _add('flt/f64n', '-1.5', 'f64', '-1.5f64')
 _add('bstr/Cow', 'b"hi"', "std::borrow::Cow<'static, [u8]>", 'std::borrow::Cow::Borrowed(&b"hi"[..])')
 CH = {c[0]: c for c in CHOICES}
-TYPE_DEFAULT = {'u8': '0u8', 'V': 'V(0)', 'String': 'String::new()', 'bool': 'false', 'u16': '0u16'}
+TYPE_DEFAULT = {'u8': '0u8', 'V': 'V(0)', 'String': 'String::new()', 'bool': 'false', 'u16': '0u16', 'Inh': 'inh(0)'}
 SPELL = ['Default = {e}', 'Default(expression = {e})', 'Default(expr = {e})', 'Default(expression({e}))', 'Default(expr({e}))']
 
 
@@ -230,7 +230,7 @@ def generate(tier):
                 if sp < 2 or tier != 'quick':
                     add(build('union', 'n', [cid], [sp], vstyles=['x'], focus=0, tag='|sole'))
     # two-field elements: pairs over a representative list (+ type default)
-    rep = [('d', 'u8'), ('d', 'V'), ('d', 'String'), 'int/u8', 'ints/u16', 'str/String', 'char/u32', 'call/V', 'flt/DF', 'byte/W']
+    rep = [('d', 'u8'), ('d', 'V'), ('d', 'String'), ('d', 'Inh'), 'int/u8', 'ints/u16', 'str/String', 'char/u32', 'call/V', 'flt/DF', 'byte/W']
     if tier != 'quick':
         rep += ['bstr/Vec', 'bool/DB', 'flts/f64', 'neg/i8']
     for a, b in itertools.product(rep, repeat=2):
